@@ -3,6 +3,7 @@ package desync
 import (
 	"encoding/binary"
 	"io"
+	"math"
 )
 
 type reader struct {
@@ -22,9 +23,21 @@ func (r reader) ReadUint64() (uint64, error) {
 // ReadN returns the next n bytes from the reader or an error if there are not
 // enough left
 func (r reader) ReadN(n uint64) ([]byte, error) {
-	b := make([]byte, n)
-	if _, err := io.ReadFull(r, b); err != nil {
+	// n typically comes from a size field in the stream. Don't allocate it up
+	// front, grow the buffer as the data actually arrives.
+	limit := n
+	if limit > math.MaxInt64 {
+		limit = math.MaxInt64
+	}
+	b, err := io.ReadAll(io.LimitReader(r, int64(limit)))
+	if err != nil {
 		return nil, err
+	}
+	if uint64(len(b)) < n {
+		if len(b) == 0 {
+			return nil, io.EOF
+		}
+		return nil, io.ErrUnexpectedEOF
 	}
 	return b, nil
 }
